@@ -93,11 +93,14 @@ fn add_range(range: Test, start_index: usize, disjoint_ranges: &mut Vec<Test>) {
             assert!(low_range.is_disjoint(&max_range));
             assert!(mid_range.is_disjoint(&max_range));
 
-            // Replace the existing range with the low range, and then
-            // add the mid and max ranges in. (The low range may be
-            // empty, but we'll prune that out later.)
-            disjoint_ranges[index] = low_range;
-            add_range(mid_range, index + 1, disjoint_ranges);
+            // Replace the existing range with the mid range (the intersection, which
+            // lies inside the existing range and is therefore disjoint from every other
+            // range in the vector), and then add the low and max ranges in: each of them
+            // is a piece either of the existing range or of the *new* range, and in the
+            // latter case it may still overlap ranges further back in the vector.
+            // (They may be empty; `add_range` ignores empty ranges.)
+            disjoint_ranges[index] = mid_range;
+            add_range(low_range, index + 1, disjoint_ranges);
             add_range(max_range, index + 1, disjoint_ranges);
         }
 
